@@ -542,6 +542,11 @@ func (r *Reader) extractTextWithFragments(page *pages.Page) (*text.Extractor, []
 		if err != nil {
 			return nil, nil, fmt.Errorf("failed to decode content stream: %w", err)
 		}
+		// The streams divide the content between tokens: keep the last token of
+		// one stream apart from the first token of the next
+		if len(allData) > 0 {
+			allData = append(allData, '\n')
+		}
 		allData = append(allData, data...)
 	}
 
